@@ -56,6 +56,9 @@ def spellings(t, nsw, r, eww, has_ns, has_ew):
     out.append(('T. R.', (f"T. {t} {nsw}, R. {r} {eww}").replace(' ,', ',').rstrip()))
     out.append(('t-r', f"t{t}{nsw}-r{r}{eww}"))
     out.append(('Township - Range', f"Township {t} {nsw} - Range {r} {eww}".replace('  ', ' ').rstrip()))
+    if t < 100 and r < 100:
+        # leading zeros ("clean up any leading '0's" in unpack_twprge)
+        out.append(('zero padded', f"T{t:02d}{nsw}-R{r:03d}{eww}"))
     if both:
         out.append(('TR glued', f"T{t}{nsw}R{r}{eww}"))
         out.append(('Township Range PM', f"Township {t} {nsw}, Range {r} {eww}, of the 5th P.M."))
